@@ -1,3 +1,12 @@
 import sys
+import threading
 from .driver import main
-sys.exit(main())
+
+# symbolic membership predicates nest one python closure per set operation: deep for Region depth 4
+sys.setrecursionlimit(100000)
+threading.stack_size(512 * 1024 * 1024)
+_rc = []
+_t = threading.Thread(target=lambda: _rc.append(main()))
+_t.start()
+_t.join()
+sys.exit(_rc[0] if _rc else 3)
